@@ -45,8 +45,8 @@ ANCHORS = [
 
 def plan(tier):
     if tier == "quick":
-        return {"shards": 16, "schemas": 180, "timeout": 300}
-    return {"shards": 16, "schemas": 12000, "timeout": 3000}
+        return {"shards": 16, "schemas": 180, "timeout": 300, "mirror": True}
+    return {"shards": 16, "schemas": 12000, "timeout": 3000, "mirror": True}
 
 
 def has_falsy_keyword(node):
@@ -98,8 +98,14 @@ def class_titles(doc):
     return out
 
 
+def h_third(tag):
+    import zlib  # pylint: disable=import-outside-toplevel
+
+    return zlib.crc32(str(tag).encode()) % 10 < 3
+
+
 def reparse(sut, ctx, doc, tag):
-    elements = sut.parse_file(copy.deepcopy(doc), ctx.tmpdir(), f"c06_{ctx.shard}_{tag}.json")
+    elements = sut.parse_file(copy.deepcopy(doc), ctx.tmpdir(), f"c06_{ctx.stream}_{tag}.json")
     return elements
 
 
@@ -111,6 +117,7 @@ def roundtrip(ctx, sut, fpm, elements, case, tag):
         ctx.witness("first_serialization_failed", case, f"{type(exc).__name__}: {exc!r}"[:300])
         return
     text = json.dumps(j1)
+    ctx.digest(tag, text)
     if "definitions" in j1:
         ctx.count("j1.with_definitions")
     if '"required"' in text:
@@ -143,7 +150,7 @@ def roundtrip(ctx, sut, fpm, elements, case, tag):
                     f"J1 != J2: {first_json_difference(j1, j2)}", finding=finding)
         return
     ctx.count("roundtrip.identical")
-    if ctx.rng.random() < 0.3:
+    if h_third(tag):
         try:
             third = reparse(sut, ctx, j2, f"{tag}_3")
             j3 = json.loads(json.dumps(sut.serialize_json(*third)))
@@ -200,13 +207,16 @@ def run_shard(ctx):
     from vlib import fingerprint as fpm  # pylint: disable=import-outside-toplevel
     from vlib import sut  # pylint: disable=import-outside-toplevel
 
-    rng = ctx.rng
+    import random as _random  # pylint: disable=import-outside-toplevel
+
     pending_sibling = None
-    for idx in range(ctx.params["schemas"]):
-        tag = f"{idx}_{os.getpid()}"
+    seeds = [ctx.gen_rng.getrandbits(48) for _ in range(ctx.params["schemas"])]
+    for idx, case_seed in ctx.ordered(seeds):
+        rng = _random.Random(case_seed)
+        tag = f"{ctx.stream}_{idx}"
         if idx % 3 == 0:
             names = [n for n in gs.PLAIN_NAMES + gs.RENAMING_NAMES if n not in ("é", "1st")]
-            doc = gen_docs.DocGen(rng, f"c06_{ctx.shard}_{tag}", names=names, untitled=0.3,
+            doc = gen_docs.DocGen(rng, f"c06_{ctx.stream}_{tag}", names=names, untitled=0.3,
                                   hostile_descriptions=idx % 2 == 0).doc()
             try:
                 resolved = gen_docs.resolve(doc)
@@ -233,7 +243,7 @@ def run_shard(ctx):
             if not isinstance(schema, dict) or not refmodel.metaschema_valid(schema):
                 continue
             try:
-                elements = sut.parse_file(copy.deepcopy(schema), ctx.tmpdir(), f"c06s_{ctx.shard}_{tag}.json")
+                elements = sut.parse_file(copy.deepcopy(schema), ctx.tmpdir(), f"c06s_{ctx.stream}_{tag}.json")
             except Exception as exc:  # pylint: disable=broad-except
                 ctx.count("parse_failed." + type(exc).__name__)
                 continue
